@@ -584,9 +584,44 @@ def rule_lookup_keeps_hit(prog, fixture=False):
     return r
 
 
+# ---------------------------------------------------------------- R-C15-6
+def rule_info_visits_every_entry(prog, fixture=False):
+    r = RuleResult("R-C15-6", "`info` tests every catalogue entry against the wildcard: the loop around matches() has no "
+                   "break or success return (a `#` wildcard matches several files; stopping at the first match would list "
+                   "only one)", floor=0 if fixture else 1)
+    for fn in prog.functions.values():
+        for n in fn.walk():
+            if n.get("k") != "CXXMemberCallExpr" or (strip(n["c"][0]) or {}).get("n") != "matches":
+                continue
+            if "AFSPMatcher" not in notpl((strip(n["c"][0]) or {}).get("q") or n.get("q") or "AFSPMatcher"):
+                continue
+            loop = None
+            for a in fn.ancestors(n):
+                if a.get("k") in ("ForStmt", "WhileStmt", "DoStmt", "CXXForRangeStmt"):
+                    loop = a
+                    break
+            if loop is None:
+                continue
+            body = loop["c"][loop["parts"]["body"]]
+            key = "%s::%s::entry-loop" % (fn.relfile(), fn.qn)
+            bad = None
+            for x in walk(body):
+                if x.get("k") == "BreakStmt" and not any(a.get("k") == "SwitchStmt" and any(y is a for y in walk(body)) for a in fn.ancestors(x)):
+                    bad = x
+                if x.get("k") == "ReturnStmt" and x.get("c") and folded(x["c"][0]) not in (0,):
+                    v = strip_all(x["c"][0])
+                    if not (v is not None and v.get("k") == "DeclRefExpr"):
+                        bad = x
+            r.add(key, fn.loc(bad) if bad is not None else fn.loc(loop), bad is None,
+                  "every entry is tested" if bad is None else
+                  "`%s` leaves the loop over the catalogue entries before all of them were tested against the wildcard" % show(bad)[:40])
+    return r
+
+
 def run(ctx):
     prog = ctx.prog("dfs", "N")
-    return [rule_translation(prog), rule_canonical_patterns(prog), rule_name_comparison(prog), rule_selector_assignment(prog), rule_lookup_keeps_hit(prog)]
+    return [rule_translation(prog), rule_canonical_patterns(prog), rule_name_comparison(prog), rule_selector_assignment(prog), rule_lookup_keeps_hit(prog),
+            rule_info_visits_every_entry(prog)]
 
 
 SELFTESTS = [
